@@ -43,14 +43,23 @@ orc_target_get_by_name (const char *name)
 OrcTarget *
 orc_target_get_default (void)
 {
-  const char *const envvar = _orc_getenv ("ORC_BACKEND");
+  /* ORC_TARGET is the documented variable; ORC_BACKEND is what earlier
+   * releases read */
+  char *envvar = _orc_getenv ("ORC_TARGET");
+  OrcTarget *target = NULL;
+
+  if (envvar == NULL)
+    envvar = _orc_getenv ("ORC_BACKEND");
 
   if (envvar != NULL) {
-    OrcTarget *const target = orc_target_get_by_name (envvar);
-
-    if (target != NULL)
-      return target;
+    target = orc_target_get_by_name (envvar);
+    free (envvar);
   }
+
+  /* never hand out a backend whose code cannot run on this CPU (or that
+   * does not produce machine code at all, like "c") */
+  if (target != NULL && target->executable)
+    return target;
 
   return default_target;
 }
